@@ -11,7 +11,7 @@ SPEC = {
     'assumptions': ['CPython randomises only str/bytes hashes (PYTHONHASHSEED)'],
     'deductive': [
         ('K-update(ties keep the stored entry)', 'update', '^update:returns-replaced'),
-        ('K-prune(tie extension)', 'prune', 'prune:(all-ties|only-ties)')],
+        ('K-prune(tie extension)', 'prune', 'prune:(all-ties|only-ties|dropped-are|kept-is|no-postponed)')],
     'bounded': [
         ('map-order-permutations', suites.case_C10, 1500, 25000, RULE + '; ' + 'non-trivial = >= 3 nodes or an exact tie in some column', '')],
 }
